@@ -293,6 +293,25 @@ impl HotTier {
         existed
     }
 
+    /// Remove the mirror of `doc_id` only if it still carries `coherence`.
+    ///
+    /// Used by a writer to take back a mirror it has just published after discovering that the
+    /// canonical record it mirrors is gone; a mirror published meanwhile by a newer write (a
+    /// different token) is left alone.
+    pub fn remove_if_coherence(&self, doc_id: u64, coherence: &VectorCoherenceToken) -> bool {
+        let mut docs = self.documents.write();
+        let matches = docs
+            .get(&doc_id)
+            .is_some_and(|doc| &doc.coherence == coherence);
+        if !matches {
+            return false;
+        }
+        docs.remove(&doc_id);
+        let mut stats = self.stats.write();
+        stats.current_size = docs.len();
+        true
+    }
+
     /// Batch delete documents from hot tier
     ///
     /// # Parameters
